@@ -109,3 +109,11 @@ func TestVerifFindingC05_RevertedValueTransferAfterPrecompile(t *testing.T) {
 	t.Logf("recipient=%s contract=%s supply before=%s after=%s", got, contractBal, supplyBefore, supplyAfter)
 	require.True(t, got.IsZero(), "the recipient of a value transfer made inside the reverted frame kept %s", got)
 }
+
+// C05-F1: the Cosmos-side effect of the precompile call itself (here: the authz grant written by approve) is made directly
+// in the SDK context and is not part of the EVM journal: it survives the revert of the frame that made the call.
+func TestVerifFindingC05_GrantMadeInRevertedFrameSurvives(t *testing.T) {
+	ds, contractAddr, _ := runFinding(t, false)
+	auth, _ := ds.app.AuthzKeeper.GetAuthorization(ds.ctx, contractAddr.Bytes(), ds.address.Bytes(), staking.DelegateMsg)
+	require.Nil(t, auth, "the staking grant written by approve() inside the reverted frame still exists: %v", auth)
+}
